@@ -14,6 +14,7 @@ import (
 	"os/exec"
 	"path/filepath"
 	"runtime"
+	"runtime/debug"
 	"sort"
 	"strconv"
 	"strings"
@@ -360,6 +361,13 @@ const reportMarker = "@@VCREPORT@@ "
 //
 //	vcheck <ID> <quick|thorough> [--replay file]
 func Main() {
+	// Every execution creates fresh nodes (large channel buffers) while the live
+	// heap stays tiny, so the default pacer would collect after every other
+	// execution: collect only when 768 MB of garbage have accumulated.
+	if os.Getenv("VERIF_GC_DEFAULT") == "" {
+		debug.SetGCPercent(-1)
+		debug.SetMemoryLimit(768 << 20)
+	}
 	if len(os.Args) < 3 {
 		fmt.Fprintln(os.Stderr, "usage: vcheck <ID> <quick|thorough> [--replay file] | vcheck list")
 		os.Exit(2)
@@ -369,6 +377,10 @@ func Main() {
 	if ck == nil {
 		fmt.Fprintf(os.Stderr, "vcheck: unknown property %s\n", id)
 		os.Exit(2)
+	}
+	if os.Getenv("VERIF_BFS_WORKER") != "" {
+		bfsWorkerLoop(id)
+		return
 	}
 	if tier != "quick" && tier != "thorough" {
 		fmt.Fprintln(os.Stderr, "vcheck: tier must be quick or thorough")
@@ -449,7 +461,7 @@ func Main() {
 		go func(i int) {
 			defer wg.Done()
 			cmd := exec.Command(os.Args[0], os.Args[1:]...)
-			cmd.Env = append(os.Environ(), fmt.Sprintf("VERIF_SHARD=%d/%d", i, n), fmt.Sprintf("VERIF_DEADLINE_UNIX=%d", deadline.Unix()), "GOMAXPROCS=2")
+			cmd.Env = append(os.Environ(), fmt.Sprintf("VERIF_SHARD=%d/%d", i, n), fmt.Sprintf("VERIF_DEADLINE_UNIX=%d", deadline.Unix()), "GOMAXPROCS=1")
 			var out, errb bytes.Buffer
 			cmd.Stdout = &out
 			cmd.Stderr = &errb
